@@ -466,6 +466,19 @@ func Config(c absd.Cfg, l Layout, rng *rand.Rand) (yaml string, cli []string) {
 		}
 		return b.String()
 	}
+	// a `+` list of the command line, with an empty entry where the rendering asks for one
+	plus := func(items []string) string {
+		its := shuffled(rng, items)
+		switch c.CliGap {
+		case 1:
+			its = append([]string{""}, its...)
+		case 2:
+			its = append([]string{its[0], ""}, its[1:]...)
+		case 3:
+			its = append(append([]string{}, its...), "")
+		}
+		return strings.Join(its, "+")
+	}
 	// two-channel list options
 	twoList := func(opt, cliName string, items []string) {
 		if len(items) == 0 {
@@ -473,9 +486,9 @@ func Config(c absd.Cfg, l Layout, rng *rand.Rand) (yaml string, cli []string) {
 		}
 		switch channelOf(c, opt) {
 		case "cli":
-			cli = append(cli, cliName+"="+strings.Join(shuffled(rng, items), "+"))
+			cli = append(cli, cliName+"="+plus(items))
 		case "both":
-			cli = append(cli, cliName+"="+strings.Join(shuffled(rng, items), "+"))
+			cli = append(cli, cliName+"="+plus(items))
 			add(opt, list(opt, []string{"Contradicting.Yaml" + opt}))
 		default:
 			add(opt, list(opt, items))
@@ -616,6 +629,18 @@ func Config(c absd.Cfg, l Layout, rng *rand.Rand) (yaml string, cli []string) {
 				}
 				if in.Optional {
 					b.WriteString("      optional: true\n")
+				}
+				if len(in.Validators) > 0 {
+					b.WriteString("      validators:\n")
+					for _, t := range in.Validators {
+						b.WriteString("        - " + yq(ValidatorExpr(l, t)) + "\n")
+					}
+				}
+				if len(in.PlanMods) > 0 {
+					b.WriteString("      plan_modifiers:\n")
+					for _, t := range in.PlanMods {
+						b.WriteString("        - " + yq(PlanModifierExpr(l, t)) + "\n")
+					}
 				}
 			}
 		}
